@@ -51,3 +51,49 @@ func VerifH_C23_Options() {
 	vfAssert(cfg1.dialer.ClientACK.MaxMessageSize == a && cfg1.dialer.ClientACK.SendBufSize == d, "configuring another client changed an existing client's configuration")
 	vfReach("isolated")
 }
+
+// The same Option values applied to two clients (opts := []Option{...}; NewClient(a, opts...);
+// NewClient(b, opts...)): a later per-client option on the second client must not reach the
+// first one, and the two configurations share no identity token, locale list or description.
+func VerifH_C23_ReusedOptions() {
+	var auth Option
+	kind := vfConcrete(vfInt("auth", 0, 3))
+	switch kind {
+	case 0:
+		auth = AuthAnonymous()
+	case 1:
+		auth = AuthUsername("user", "secret")
+	case 2:
+		auth = AuthCertificate([]byte{1, 2, 3})
+	case 3:
+		auth = AuthIssuedToken([]byte{4, 5, 6})
+	}
+	opts := []Option{auth, ApplicationName("app"), ApplicationURI("urn:app"), Locales("de", "en"), SessionName("s"), MaxMessageSize(vfU32("maxMsg"))}
+	cfg1, err := ApplyConfig(opts...)
+	vfAssert(err == nil && cfg1 != nil, "ApplyConfig fails")
+	cfg2, err := ApplyConfig(append(append([]Option{}, opts...), AuthPolicyID("second"), ApplicationName("other"), Locales("fr"))...)
+	vfAssert(err == nil && cfg2 != nil, "ApplyConfig fails for the second client")
+	if cfg1 == nil || cfg2 == nil {
+		return
+	}
+	policyID := func(t interface{}) string {
+		switch x := t.(type) {
+		case *ua.AnonymousIdentityToken:
+			return x.PolicyID
+		case *ua.UserNameIdentityToken:
+			return x.PolicyID
+		case *ua.X509IdentityToken:
+			return x.PolicyID
+		case *ua.IssuedIdentityToken:
+			return x.PolicyID
+		}
+		return "?"
+	}
+	vfAssert(policyID(cfg2.session.UserIdentityToken) == "second", "AuthPolicyID is not applied to the client it was given to")
+	vfAssert(policyID(cfg1.session.UserIdentityToken) == "", "a per-client option of the second client changed the first client's identity token")
+	vfAssert(cfg1.session.ClientDescription.ApplicationName.Text == "app" && len(cfg1.session.LocaleIDs) == 2 && cfg1.session.LocaleIDs[0] == "de",
+		"a per-client option of the second client changed the first client's session configuration")
+	vfAssert(cfg1.session != cfg2.session && cfg1.session.ClientDescription != cfg2.session.ClientDescription && cfg1.dialer.ClientACK != cfg2.dialer.ClientACK,
+		"two clients configured from the same options share mutable state")
+	vfReach("reused")
+}
